@@ -42,6 +42,8 @@ type C20Call struct {
 	CancelAt int    `json:"cancel_at"` // cancel the client context at the n-th datastore read (0 = never)
 	// FailOpenAt: the n-th iterator open of the call fails with a datastore error (0 = never)
 	FailOpenAt int `json:"fail_open_at,omitempty"`
+	// UsersetSubject: the subject is a userset instead of a user
+	UsersetSubject bool `json:"userset_subject,omitempty"`
 }
 
 type C20Case struct {
@@ -73,6 +75,9 @@ func genC20(t *rapid.T) C20Case {
 		call := C20Call{API: apis[rapid.IntRange(0, len(apis)-1).Draw(t, "api")]}
 		call.Object = fmt.Sprintf("%d", rapid.IntRange(0, c.Chain).Draw(t, "obj"))
 		call.User = fmt.Sprintf("%d", rapid.IntRange(0, 3).Draw(t, "user"))
+		if rapid.IntRange(0, 4).Draw(t, "usersetSubject") == 0 {
+			call.UsersetSubject = true // the subject is the userset <type>:<User>#<relation> of the family's recursive relation
+		}
 		switch rapid.IntRange(0, 3).Draw(t, "fault") {
 		case 0, 1:
 			call.CancelAt = rapid.IntRange(1, 40).Draw(t, "cancelAt")
@@ -106,10 +111,13 @@ func c20World(c C20Case) (gen.World, string, string) {
 		ts = append(ts, m.Tuple{Object: fmt.Sprintf("group:%d", c.Chain/2), Relation: "member", User: "user:1"})
 	case 1: // recursive TTU
 		objType, rel = "folder", "viewer"
-		mo = &m.Model{Types: []m.TypeDef{{Name: "user"}, {Name: "folder", Relations: []m.Relation{
-			{Name: "parent", Rewrite: &m.Rewrite{Kind: m.This}, Restr: []m.Restriction{{Type: "folder"}}},
-			{Name: "viewer", Rewrite: &m.Rewrite{Kind: m.Union, Children: []*m.Rewrite{{Kind: m.This}, {Kind: m.TTU, Tupleset: "parent", Rel: "viewer"}}}, Restr: []m.Restriction{{Type: "user"}}},
-		}}}}
+		mo = &m.Model{Types: []m.TypeDef{{Name: "user"},
+			{Name: "group", Relations: []m.Relation{{Name: "member", Rewrite: &m.Rewrite{Kind: m.This}, Restr: []m.Restriction{{Type: "user"}}}}},
+			{Name: "folder", Relations: []m.Relation{
+				{Name: "parent", Rewrite: &m.Rewrite{Kind: m.This}, Restr: []m.Restriction{{Type: "folder"}}},
+				{Name: "viewer", Rewrite: &m.Rewrite{Kind: m.Union, Children: []*m.Rewrite{{Kind: m.This}, {Kind: m.TTU, Tupleset: "parent", Rel: "viewer"}}}, Restr: []m.Restriction{{Type: "user"}, {Type: "group", Rel: "member"}}},
+			}}}}
+		ts = append(ts, m.Tuple{Object: fmt.Sprintf("folder:%d", c.Chain), Relation: "viewer", User: "group:0#member"}, m.Tuple{Object: "group:0", Relation: "member", User: "user:2"})
 		for i := 0; i < c.Chain; i++ {
 			ts = append(ts, m.Tuple{Object: fmt.Sprintf("folder:%d", i), Relation: "parent", User: fmt.Sprintf("folder:%d", i+1)})
 		}
@@ -227,6 +235,9 @@ func checkC20(env *fw.Env, c C20Case) *fw.Failure {
 	for _, call := range c.Calls {
 		obj := objType + ":" + call.Object
 		user := "user:" + call.User
+		if call.UsersetSubject {
+			user = usersetSubject(c.Family, "x"+call.User) // an object outside the data: never reached, the whole closure is walked
+		}
 		ctx, cancel := context.WithCancel(context.Background())
 		if call.CancelAt > 0 {
 			fd.arm(call.CancelAt, cancel, false)
@@ -235,6 +246,7 @@ func checkC20(env *fw.Env, c C20Case) *fw.Failure {
 			fd.armOpen(call.FailOpenAt)
 		}
 		var err error
+		nexts0 := fd.nexts.Load()
 		t0 := time.Now()
 		returned := semkit.Watchdog(dl+slack+20*time.Second, func() {
 			switch call.API {
@@ -253,6 +265,12 @@ func checkC20(env *fw.Env, c C20Case) *fw.Failure {
 			}
 		})
 		dt := time.Since(t0)
+		// work bound: these families are resolved with a visited set, so a query reads every tuple a bounded
+		// number of times; a resolution that only the deadline stops reads orders of magnitude more
+		if reads, bound := fd.nexts.Load()-nexts0, int64(400*(len(w.Tuples)+50)); reads > bound {
+			return fw.Failf("", "%s(%s#%s@%s) made %d datastore reads on a world of %d tuples (bound %d) before it returned after %v (deadline %v, engine %s/%s): the resolution does not terminate on its own",
+				call.API, obj, rel, user, reads, len(w.Tuples), bound, dt, dl, c.Engine, c.LOEngine)
+		}
 		fired := false
 		if call.CancelAt > 0 {
 			fired = fd.disarm()
@@ -334,6 +352,19 @@ func checkC20(env *fw.Env, c C20Case) *fw.Failure {
 	}
 	env.Rec.Case(c, landed, sample, semkit.SortedSet(classes)...)
 	return nil
+}
+
+// usersetSubject names a userset of the family's recursive relation.
+func usersetSubject(family int, id string) string {
+	switch family {
+	case 0:
+		return "group:" + id + "#member"
+	case 1:
+		return "group:" + id + "#member"
+	case 3:
+		return "team:" + id + "#member"
+	}
+	return "group:" + id + "#member"
 }
 
 func loExperimental(engine string) []string {
